@@ -23,6 +23,10 @@ class VConn(object):
         self.sends = []              # (agent id, bytes, consumed) per send call
         self.consumed = 0            # s2c bytes the client has read so far
         self.hist = 0                # running hash of the send history
+        self.limit = None            # fault injection: cut s2c after n bytes
+        self.pushed_total = 0
+        self.cut_done = False
+        self.frame_ends = []         # s2c offsets where server frames end
         self.fed = 0                 # send calls already shown to the server
         self.s2c = bytearray()       # readable by the client now
         self.outbox = bytearray()    # pushed by the server, not yet delivered
@@ -41,7 +45,22 @@ class VConn(object):
     # server side
     def push(self, data):
         if self.eof_pending:
+            if self.cut_done:
+                return              # fault injection: stream was cut here
             raise ToolError('server pushes after close')
+        if not data:
+            return
+        self.pushed_total += len(data)
+        if self.limit is not None:
+            room = self.limit - (self.pushed_total - len(data))
+            if room <= len(data):       # the k-th byte is the last one sent
+                data = data[:max(0, room)]
+                self.cut_done = True
+        self._push(data)
+        if self.cut_done:
+            self.close()
+
+    def _push(self, data):
         if not data:
             return
         if self.net.hold:
@@ -111,6 +130,9 @@ class VSocket(object):
         S.event('connect', c.id, host, port)
         S.effect()
         c.server = ep(c)
+        if c.limit == 0:                # fault injection: nothing, then EOF
+            c.cut_done = True
+            c.close()
         if c.server is not None and hasattr(c.server, 'on_connect'):
             c.server.on_connect(c)
 
